@@ -46,6 +46,24 @@ MUTANTS = [
       [(RNT, "static const Jacobian Jr = Jacobian::Identity();", "const static Jacobian Jr = Jacobian::Identity();", 1)]),
     N("effect-drop-static", ["C14", "C09"],
       [(RNT, "static const Jacobian Jr = Jacobian::Identity();", "const Jacobian Jr = Jacobian::Identity();", 1)]),
+    # ---------------- Bundle (C11) -------------------------------------------------------------------
+    B("bundle-act-jacobian-offset-kind", ["C11"],
+      [(BB, "        std::get<_Idx>(internal::traits<_Derived>::DimIdx),\n        std::get<_Idx>(internal::traits<_Derived>::DoFIdx)\n      ) :", "        std::get<_Idx>(internal::traits<_Derived>::DimIdx),\n        std::get<_Idx>(internal::traits<_Derived>::DimIdx)\n      ) :", 1)],
+      ["act"]),
+    B("bundle-ljac-calls-rjac", ["C11"],
+      [(BT, "  ) = element<_Idx>().ljac()), 0) ...};", "  ) = element<_Idx>().rjac()), 0) ...};", 1)],
+      ["R-OPAGREE", "ljac_impl"]),
+    B("bundle-inverse-missing-zero-fill", ["C11"],
+      [(BB, "  if (J_minv_m) {\n    J_minv_m->setZero();\n  }\n  return inverse_impl", "  return inverse_impl", 1)],
+      ["inverse"]),
+    B("bundle-element-offset-kind", ["C11"],
+      [(BB, "    static_cast<const _Derived &>(*this).coeffs().data() +\n    std::get<_Idx>(internal::traits<_Derived>::RepSizeIdx)", "    static_cast<const _Derived &>(*this).coeffs().data() +\n    std::get<_Idx>(internal::traits<_Derived>::DoFIdx)", 1)],
+      ["R-PTR", "element"]),
+    B("bundle-tangent-algidx-from-dof", ["C11"],
+      [("include/manif/impl/bundle/BundleTangent.h", "AlgIdx = compute_indices<_T<_Scalar>::Tangent::LieAlg::RowsAtCompileTime ...>();", "AlgIdx = compute_indices<_T<_Scalar>::Tangent::DoF ...>();", 1)],
+      ["C11.a", "AlgIdx"]),
+    N("bundle-adj-setzero-instead-of-zero-init", ["C11", "C06"],
+      [(BB, "  Jacobian adj = Jacobian::Zero();", "  Jacobian adj;\n  adj.setZero();", 1)]),
     # ---------------- R-FWD (C04) ------------------------------------------------------------------
     B("fwd-tangent-plus-is-rplus", ["C04"],
       [(TB, "  return m.lplus(derived(), J_mout_m, J_mout_t);\n}\n\ntemplate <class _Derived>\ntemplate <typename _DerivedOther>", "  return m.rplus(derived(), J_mout_m, J_mout_t);\n}\n\ntemplate <class _Derived>\ntemplate <typename _DerivedOther>", 1)],
